@@ -36,8 +36,14 @@ RULE = ("cases: (1) exhaustive structured PINs over n_pre<=2, n_post<=1, Default
         "'DefaultDirection', fields with quotes, backslashes, brackets, '%', '$' and (1/3) non-ASCII characters (2-4 byte UTF-8, "
         "zero-width), DefaultDirection lines with numeric weights, CRLF line ends, sep_protein with regex / format / quote "
         "characters, a non-ASCII sep_column; every text stream kind (StringIO, file, TextIOWrapper, gzip, SpooledTemporaryFile, "
-        "the module's main() with a fresh / empty / non-empty output path); "
-        "(2z) PINs with ZERO PSMs (header only, header + DefaultDirection line); "
+        "the module's main() with a fresh / empty / non-empty output path: the non-empty one (old text, an old table, text "
+        "without newline, a blank line) in 4 (quick) / 12 (thorough) wide cases and in (2z)); "
+        "(2z) PINs with ZERO PSMs, in both tiers: header only and header + DefaultDirection line x final newline on/off x "
+        "{0,2} columns before / {0,1} after the protein column x 2 separator pairs x EVERY stream kind (main() onto a fresh, "
+        "an empty and a non-empty output path included), header-only with CRLF / CR line ends and with blanks around the "
+        "header; since /repo acb0557 these are ordinary well-formed PINs (Proofs/PinTsvP.v: wf has no clause on the number of "
+        "rows): converted to the header line, which is valid and a fixed point; header-only is reported valid; only the text "
+        "without any line raises (StopIteration); "
         "(2b) large files (10-60 KiB) whose only irregular line comes late; (2c) larger files: 1001-4000 (quick) / up to 30000 "
         "(thorough) PSMs = 0.1-2 MB, the irregular line (several proteins / missing field / surplus field) in the last third, on "
         "the very last line without newline, or nowhere; one PSM line of 9-10 KiB (longer than the 8 KiB stream buffer); "
@@ -49,17 +55,18 @@ RULE = ("cases: (1) exhaustive structured PINs over n_pre<=2, n_post<=1, Default
         "ends) x 3 separator pairs x StringIO / file (/ gzip); (4) convert_line_pin_to_tsv on rows of structured PINs and "
         "on random lines with arbitrary idx_protein_col / n_col (negative slice ends included); (5) parse_pin_header_columns on "
         "header-like strings; (6) cli: mokapot.main's verify step on 1..3 files (already rectangular / ragged / ragged only on "
-        "the last line / with DefaultDirection line / CRLF / non-ASCII / short line / no PSM / no Proteins column, in every "
-        "order, file names with spaces, equal base names in different directories, no extension), every file compared with "
-        "Model/PinVerify.v (pin_verify_text); "
+        "the last line / with DefaultDirection line / CRLF / non-ASCII / short line / ZERO PSMs: header only with and without "
+        "final newline, header + DefaultDirection line, forced into every 5th command line in both tiers / no Proteins column / "
+        "empty file, in every order, file names with spaces, equal base names in different directories, no extension), every "
+        "file compared with Model/PinVerify.v (pin_verify_text); "
         "(7) WITHOUT the model, by the property oracle alone (extra_checks): PSM lines of 70-300 KiB (3000-12000 proteins; the "
         "extracted model reverses lines with a quadratic list function, by theorem C19_file its answer on these well-formed "
         "PINs is the table the oracle expects), multi-character sep_column ('||', ', ', '<>'; the model's sep_column is one "
         "character); in addition the property oracle is evaluated on every structured / cli / is_valid case of the run. "
         "distinct = distinct (entry, separators, call form, stream kind, text); non-trivial = a PSM with >=2 proteins or a "
-        "DefaultDirection line (for a converted table: its source had one), a malformed text of >=2 lines, a random line of >=2 "
-        "fields, a non-empty header string; PINs that are already rectangular, zero-PSM PINs and non-default separators on "
-        "single-protein rows count as trivial")
+        "DefaultDirection line (for a converted table: its source had one; header + DefaultDirection line without PSMs counts), a "
+        "malformed text of >=2 lines, a random line of >=2 fields, a non-empty header string; PINs that are already rectangular "
+        "(header-only ones included) and non-default separators on single-protein rows count as trivial")
 ASSUMPTIONS = [
     "str.strip() is modelled for ASCII whitespace (9-13, 28-32) only; generated texts contain no non-ASCII character c with "
     "c.isspace() (\\x85, \\xa0, \\u2000-\\u200a, \\u2028, \\u2029, \\u3000 ...); other non-ASCII characters are generated",
@@ -70,13 +77,13 @@ ASSUMPTIONS = [
     "files are written and read back by the harness in the encoding the interpreter uses for open() (UTF-8 under ./check); "
     "non-ASCII characters are generated only if that encoding can represent them",
     "the CLI cases replace mokapot.mokapot.read_pin by a stub that raises, so that main() stops after its verify step; a file "
-    "that makes the step raise is only ever the last file of a command line",
+    "that makes the step raise (no Proteins column, no line at all) is only ever the last file of a command line",
+    "/repo is at or after acb0557 (a PIN without PSMs is valid / converts to its header) and 2fc2141 (pin_to_tsv.main() opens "
+    "its output with mode 'w'); the model and the oracle follow the repaired code, so on an older tree the zero-PSM cases "
+    "(StopIteration) and the main-leftover cases (old content kept in front of the table) are reported as violations",
 ]
 TRUSTED_EXTRA = ["io.StringIO / open() / TextIOWrapper / gzip / SpooledTemporaryFile line iteration (oracle: lines end at \\n)",
                  "argparse of pin_to_tsv.main() and of mokapot.Config (arguments are passed as --opt=value / as paths)"]
-
-KEY_ZERO = "zero-psm:StopIteration"
-KEY_MAIN_APPEND = "pin_to_tsv.main:output-opened-in-append-mode"
 
 DD = "DefaultDirection"
 TAB = "\t"
@@ -366,18 +373,50 @@ def _gen_wide(ctx, cases):
         cases.append(c)
 
 
+ZERO_VIAS = ["stringio", "file", "wrapper", "gzip", "spooled", "main", "main-emptyout", "main-leftover"]
+ZERO_LEFTOVERS = ["old content\n", "h\tProteins\nx\tP\n", "no newline at the end", "\n"]
+
+
 def _gen_zero(ctx, cases):
-    # (2z) no PSM at all
+    # (2z) no PSM at all: header only / header + DefaultDirection line (the regression for /repo acb0557; with the module's
+    #      main() onto a non-empty output path also for 2fc2141).  Identical in both tiers.
     k = 0
     for npre, npost, dd, fnl in itertools.product((0, 2), (0, 1), (False, True), (False, True)):
         for sc, sp, call in [(TAB, ":", "default"), (",", "|||", "kw")]:
             st = {"hdr_pre": [f"h{j}" for j in range(npre)], "hdr_post": [f"t{j}" for j in range(npost)],
                   "dd": (DD + (sc + "-") * (npre + npost)) if dd else None, "rows": [], "final_nl": fnl}
-            cs = _mk(st, sc, sp, call, "file" if k % 2 else "stringio")
-            for c in cs:
-                c["tags"] = c["tags"] + ["zero-psm"]
-            cases.extend(cs)
-            k += 1
+            for via in ZERO_VIAS:
+                left = ZERO_LEFTOVERS[k % len(ZERO_LEFTOVERS)] if via == "main-leftover" else None
+                cs = _mk(st, sc, sp, call, via, leftover=left)
+                if via == "main-leftover":
+                    cs = cs[:1]
+                for c in cs:
+                    c["tags"] = c["tags"] + ["zero-psm"]
+                cases.extend(cs)
+                k += 1
+    # header-only with \r\n / \r line ends (line ends only where the reader translates them) and with blanks around the header
+    for sc, sp, call in [(TAB, ":", "default"), (",", "|||", "kw")]:
+        for npre in (0, 2):
+            for dd in (False, True):
+                st = {"hdr_pre": [f"h{j}" for j in range(npre)], "hdr_post": ["t0"], "rows": [], "final_nl": True,
+                      "dd": (DD + (sc + "-") * (npre + 1)) if dd else None}
+                for via in ("stringio", "file", "main", "gzip"):
+                    cs = _mk(st, sc, sp, call, via, crlf=True)
+                    for c in cs:
+                        c["tags"] = c["tags"] + ["zero-psm"]
+                    cases.extend(cs)
+    for t in ["h{s}Proteins\r", "h{s}Proteins\r\n", " h{s}Proteins \n", "h{s}Proteins  ", "\th{s}Proteins\n", "Proteins", "Proteins\n",
+              "h{s}Proteins\n\n", "h{s}Proteins\nDefaultDirection", "h{s}Proteins\nDefaultDirection{s}-\r\n", "h{s}proteins\n", "h{s}x\n"]:
+        for sc, sp, call in [(TAB, ":", "default"), (",", "|||", "kw")]:
+            for via in ("stringio", "file", "main", "main-leftover"):
+                txt = t.replace("{s}", sc)
+                c = {"fn": "convert_file", "text": txt, "sc": sc, "sp": sp, "call": call, "via": via,
+                     "tags": ["malformed", "edge", "zero-psm", via] + _septag(sc, sp, call)}
+                if via == "main-leftover":
+                    c["leftover"] = "old\n"
+                cases.append(c)
+                if not via.startswith("main"):
+                    cases.append(dict(c, fn="is_valid"))
 
 
 def _gen_large(ctx, cases):
@@ -582,20 +621,32 @@ def _gen_headers(ctx, cases):
 
 
 CLI_KINDS = ["valid", "valid", "ragged", "ragged", "ragged-last-line", "dd", "dd-ragged", "crlf-ragged", "crlf-valid",
-             "nonascii-ragged", "nonascii-valid", "short-line", "wide"]
-CLI_LAST_ONLY = ["header-only", "no-proteins-column", "empty-file"]
+             "nonascii-ragged", "nonascii-valid", "short-line", "wide", "header-only", "header-dd"]
+CLI_ZERO = ["header-only", "header-only-nonl", "header-dd", "header-dd-nonl", "header-only-crlf", "header-alone"]
+CLI_LAST_ONLY = ["no-proteins-column", "empty-file"]
 CLI_NAMES = [["a.pin", "b.pin", "c.pin"], ["my file.pin", "b c d.pin", "x.pin"], ["s1/x.pin", "s2/x.pin", "s3/x.pin"],
              ["noext", "y.txt", "z.tsv"], ["a.pin", "a.pin.bak", "a.tsv"]]
 
 
 def _cli_file(rng, kind, na_ok):
     """-> (text on disk, struct or None)"""
-    if kind in ("header-only", "no-proteins-column", "empty-file"):
+    if kind in ("no-proteins-column", "empty-file"):
         if kind == "empty-file":
             return "", None
-        if kind == "header-only":
-            return rng.choice(["SpecId\tLabel\tProteins\n", "SpecId\tLabel\tProteins", "Proteins\n"]), None
         return "SpecId\tLabel\tprots\nx\t1\tP1\tP2\n", None
+    if kind.startswith("header-"):
+        # a PIN without PSMs: left alone when it is only its header, reduced to its header when a DefaultDirection line follows
+        if kind == "header-alone":
+            hp, ht = [], []
+        else:
+            hp, ht = ["SpecId", "Label", "ScanNr"] + ["f%d" % j for j in range(rng.randint(0, 3))], rng.choice([[], ["tail"]])
+        st = {"hdr_pre": hp, "hdr_post": ht, "rows": [],
+              "dd": (DD + (TAB + "-") * (len(hp) + len(ht))) if kind.startswith("header-dd") else None,
+              "final_nl": rng.random() < 0.6 if kind in ("header-only", "header-dd") else not kind.endswith("-nonl")}
+        txt = render(st, TAB)
+        if kind.endswith("-crlf"):
+            txt = txt.replace("\n", "\r\n")
+        return txt, st
     nonascii = na_ok and kind.startswith("nonascii")
     if kind == "wide":
         st = _wide_struct(rng, TAB, na_ok and rng.random() < 0.5)
@@ -645,6 +696,8 @@ def _gen_cli(ctx, cases):
         if k % 3 == 0 and nfiles >= 2:
             kinds[0] = rng.choice(["valid", "crlf-valid", "nonascii-valid"])      # an untouched file before one that is converted
             kinds[1] = rng.choice(["ragged", "dd", "ragged-last-line", "nonascii-ragged"])
+        if k % 5 == 2:
+            kinds[(k // 5) % nfiles] = CLI_ZERO[(k // 5) % len(CLI_ZERO)]              # a PIN without PSMs, at every position
         if k % 9 == 4:
             kinds[-1] = rng.choice(CLI_LAST_ONLY)
         names = CLI_NAMES[k % len(CLI_NAMES)][:nfiles]
@@ -658,6 +711,7 @@ def _gen_cli(ctx, cases):
         for j in range(nfiles):
             cases.append({"fn": "cli", "files": files, "names": names, "k": j, "struct": structs[j], "kind": kinds[j],
                           "tags": ["cli", "cli-files=%d" % nfiles, "cli-kind=" + kinds[j], "cli-pos=%d" % j]
+                          + (["zero-psm"] if kinds[j].startswith("header-") else [])
                           + (["cli-after-valid"] if j > 0 and all(x.endswith("valid") for x in kinds[:j]) else [])})
 
 
@@ -945,7 +999,7 @@ def nontrivial(c):
         return len(c["line"].split(c.get("sc", TAB))) >= 2
     st = c.get("struct")
     if st is not None:
-        return bool(st["rows"]) and (_multi(st) or st["dd"] is not None)
+        return _multi(st) or st["dd"] is not None
     if "tsv-of-structured" in tags:
         return bool(c.get("src_multi"))
     if fn == "cli":
@@ -961,9 +1015,9 @@ def _spec_valid(text, sc=TAB):
     lines = text.split("\n")
     if lines and lines[-1] == "":
         lines.pop()
-    if len(lines) < 2:
-        return None
-    if lines[1].startswith(DD):
+    if not lines:
+        return None                     # no header: the call raises
+    if len(lines) >= 2 and lines[1].startswith(DD):
         return False
     n = lines[0].count(sc)
     return all(l.count(sc) == n for l in lines[1:])
@@ -975,11 +1029,9 @@ def oracle(c, i):
     st = c.get("struct")
     if c["fn"] == "convert_file" and st is not None:
         exp = expected_tsv(st, sc, sp)
-        if c.get("via") == "main-leftover" and c.get("leftover"):
-            if tuple(i) != ("ok", exp):
-                return (f"pin_to_tsv.main() with an output path that already holds {c['leftover']!r}: the output file is not "
-                        f"the rectangular table: got {i!r}, expected {exp!r}")
-            return None
+        if c.get("via") == "main-leftover" and c.get("leftover") and tuple(i) != ("ok", exp):
+            return (f"pin_to_tsv.main() with an output path that already holds {c['leftover']!r}: the output file is not "
+                    f"the rectangular table: got {i!r}, expected {exp!r}")
         if tuple(i) != ("ok", exp):
             return (f"conversion of a well-formed PIN (sep_column={sc!r}, sep_protein={sp!r}) is not the expected "
                     f"rectangular table: got {i!r}, expected {exp!r}")
@@ -994,7 +1046,7 @@ def oracle(c, i):
         if again != ("ok", exp):
             return f"conversion is not idempotent: {again!r}"
         return None
-    if c["fn"] == "is_valid" and st is not None and st["rows"]:
+    if c["fn"] == "is_valid" and st is not None:
         want = (not _multi(st)) and st["dd"] is None
         if tuple(i) != ("ok", want):
             return (f"is_valid_tsv returned {i!r} for a PIN that " + ("is rectangular and has no DefaultDirection line"
@@ -1021,27 +1073,6 @@ def oracle(c, i):
             sv = _spec_valid(t, sc)
             if sv is not None and i[0] == "ok" and bool(i[1]) != sv:
                 return f"is_valid_tsv returned {i[1]} but the text is {'valid' if sv else 'invalid'} by definition"
-    return None
-
-
-def finding_key(c, m, i):
-    """structural key of the two known defects of /repo; the key is given only when the observed result has exactly the
-    known shape, so that any other wrong result on the same inputs is still reported"""
-    st = c.get("struct")
-    if c.get("fn") == "convert_file" and c.get("via") == "main-leftover" and c.get("leftover") and st is not None:
-        sc, sp, _ = _seps(c)
-        if tuple(i) == ("ok", c["leftover"] + expected_tsv(st, sc, sp)):
-            return KEY_MAIN_APPEND
-        return None
-    if st is not None and not st["rows"] and c.get("fn") in ("convert_file", "is_valid"):
-        if m is not None and lib.jsonable(m) != lib.jsonable(i):
-            return None
-        sc, sp, _ = _seps(c)
-        if c["fn"] == "convert_file":
-            known = ("ok", expected_tsv(st, sc, sp)) if st["dd"] is not None else ("err", "StopIteration")
-        else:
-            known = ("ok", False) if st["dd"] is not None else ("err", "StopIteration")
-        return KEY_ZERO if tuple(i) == known else None
     return None
 
 
@@ -1092,7 +1123,6 @@ def extra_checks(ctx):
         todo.append((c, _impl(c), True))
         for t in c["tags"]:
             info["oracle_only_distribution"][t] = info["oracle_only_distribution"].get(t, 0) + 1
-    seen_keys = set()
     for c, i, only in todo:
         info["oracle_only_cases" if only else "oracle_sweep_cases"] += 1
         try:
@@ -1101,18 +1131,10 @@ def extra_checks(ctx):
             msg = f"the property oracle crashed: {type(e).__name__}: {e}"
         if not msg:
             continue
-        key = finding_key(c, None, i)
-        if key is not None:
-            if key in seen_keys:
-                continue
-            seen_keys.add(key)
-        elif len(fails) >= 25:
+        if len(fails) >= 25:
             continue
         small = c if len(json.dumps(lib.jsonable(c))) < 2000000 else {k: v for k, v in c.items() if k not in ("text", "struct")}
-        f = {"what": msg[:1500], "failing_input": small}
-        if key is not None:
-            f["key"] = key
-        fails.append(f)
+        fails.append({"what": msg[:1500], "failing_input": small})
     _RESULTS.clear()
     return fails, info
 
